@@ -124,7 +124,7 @@ func Run(ctx context.Context, p Prog, stores map[string]StoreSpec) *Record {
 	}
 	rec.BeginAt = stamp()
 	defer func() { rec.EndAt = stamp() }()
-	tx, err := infs.NewTransaction(ctx, sopenv.Opts(p.Mode))
+	tx, err := sopenv.NewTransaction(ctx, p.Mode)
 	if err != nil {
 		rec.BeginErr = err.Error()
 		return rec
@@ -142,9 +142,9 @@ func Run(ctx context.Context, p Prog, stores map[string]StoreSpec) *Record {
 		var b btree.BtreeInterface[int, string]
 		var err error
 		if sp, ok := stores[name]; ok && sp.Slot > 0 && p.Mode == sop.ForWriting {
-			b, err = infs.NewBtree[int, string](ctx, sp.Options(), tx, nil)
+			b, err = newBtree(ctx, sp.Options(), tx)
 		} else {
-			b, err = infs.OpenBtree[int, string](ctx, name, tx, nil)
+			b, err = openBtree(ctx, name, tx)
 		}
 		if err != nil {
 			return nil, err
@@ -290,7 +290,7 @@ func (d Dump) String() string {
 func ReadAll(ctx context.Context, names []string) Dump {
 	d := Dump{Stores: map[string][]KV{}, Counts: map[string]int64{}, Errs: map[string]string{}}
 	for _, n := range names {
-		tx, err := infs.NewTransaction(ctx, sopenv.Opts(sop.ForReading))
+		tx, err := sopenv.NewTransaction(ctx, sop.ForReading)
 		if err != nil {
 			d.Errs[n] = err.Error()
 			continue
@@ -299,7 +299,7 @@ func ReadAll(ctx context.Context, names []string) Dump {
 			d.Errs[n] = err.Error()
 			continue
 		}
-		b, err := infs.OpenBtree[int, string](ctx, n, tx, nil)
+		b, err := openBtree(ctx, n, tx)
 		if err != nil {
 			d.Errs[n] = "open: " + err.Error()
 			if tx.HasBegun() {
@@ -323,14 +323,14 @@ func ReadAll(ctx context.Context, names []string) Dump {
 // Build creates the stores with their initial content using ordinary committed transactions.
 func Build(ctx context.Context, specs []StoreSpec) error {
 	for _, sp := range specs {
-		tx, err := infs.NewTransaction(ctx, sopenv.Opts(sop.ForWriting))
+		tx, err := sopenv.NewTransaction(ctx, sop.ForWriting)
 		if err != nil {
 			return err
 		}
 		if err := tx.Begin(ctx); err != nil {
 			return err
 		}
-		b, err := infs.NewBtree[int, string](ctx, sp.Options(), tx, nil)
+		b, err := newBtree(ctx, sp.Options(), tx)
 		if err != nil {
 			return err
 		}
@@ -526,4 +526,18 @@ func brief(r OpResult) string {
 		return fmt.Sprint(r.Scan)
 	}
 	return fmt.Sprintf("ok=%v", r.OK)
+}
+
+func newBtree(ctx context.Context, so sop.StoreOptions, tx sop.Transaction) (btree.BtreeInterface[int, string], error) {
+	if sopenv.Replicated {
+		return infs.NewBtreeWithReplication[int, string](ctx, so, tx, nil)
+	}
+	return infs.NewBtree[int, string](ctx, so, tx, nil)
+}
+
+func openBtree(ctx context.Context, name string, tx sop.Transaction) (btree.BtreeInterface[int, string], error) {
+	if sopenv.Replicated {
+		return infs.OpenBtreeWithReplication[int, string](ctx, name, tx, nil)
+	}
+	return infs.OpenBtree[int, string](ctx, name, tx, nil)
 }
